@@ -113,7 +113,7 @@ func foreignWriter(r *engine.PRNG, op *Op) {
 	if err != nil {
 		return
 	}
-	if out, changed := world.PermuteFields(typeInfo(op.Type).T, raw, r.Intn); changed {
+	if out, changed := world.PermuteFields(typeInfo(op.Type).T, raw, r.Intn, r.Intn(2) == 0); changed {
 		op.Data = hex.EncodeToString(out)
 		op.Pat = "damaged"
 	}
